@@ -359,3 +359,22 @@ def text_changes(prog, pv, body, op, slicing_ok=False):
             if m in STR_CHANGE or (not slicing_ok and m in ("get", "index", "get_unchecked") and "Range" in (a[2] or "")):
                 out.add(m)
     return sorted(out)
+
+
+def decoder_step_alternatives(prog, pv, db, fld, stem):
+    """other spellings of the steps of a byte decoder `add_K_from_bytes`, looked for in the function, its closures and the private code it reaches
+    (clones of generic helpers included):  store - `extend` / `entry` / `or_insert*` on `self.<fld>`;  propagate - the direct term writer
+    `HpoTermInternal::add_<stem>` applied without going through `link_<stem>_term`.  Returns (store_alt, propagate_alt) as short descriptions or None."""
+    from engines import private_scope
+    from prov import field_names
+    scope = []
+    for x in [db] + [y for y in private_scope(prog, db) if y.id != db.id]:
+        scope += [z for z in prog.family(x) if z not in scope]
+    store = prop = None
+    for fb in scope:
+        for _, t in fb.calls():
+            if t.callee.method in ("extend", "entry", "or_insert", "or_insert_with", "append") and t.args and fld in field_names(pv.of_operand(fb, t.args[0]), "Builder"):
+                store = "%s on self.%s in %s" % (t.callee.method, fld, fb.short)
+            if (t.callee.res or "").endswith("HpoTermInternal::add_" + stem) and not re.search(r"::link_\w+_term", fb.id):
+                prop = "HpoTermInternal::add_%s called in %s" % (stem, fb.short)
+    return store, prop
